@@ -80,9 +80,24 @@ func genWriteCases() {
 	if fd == nil {
 		fail("func write not found")
 	}
-	ts, ok := fd.Body.List[0].(*ast.TypeSwitchStmt)
-	if !ok || len(fd.Body.List) != 1 {
-		fail("write: expected a single type switch")
+	stmts := fd.Body.List
+	nilGuard := false
+	if len(stmts) == 2 {
+		// leading guard: `if rv := reflect.ValueOf(i); rv.Kind() == reflect.Ptr && rv.IsNil() { return }`
+		if g, ok := stmts[0].(*ast.IfStmt); ok && g.Init != nil && strings.Contains(exprString(g.Cond), "Kind(…) == reflect.Ptr") &&
+			strings.Contains(exprString(g.Cond), "IsNil(…)") && len(g.Body.List) == 1 {
+			if rs, ok := g.Body.List[0].(*ast.ReturnStmt); ok && len(rs.Results) == 0 {
+				nilGuard = true
+				stmts = stmts[1:]
+			}
+		}
+	}
+	if len(stmts) != 1 {
+		fail("write: expected (an optional nil-pointer guard and) a single type switch")
+	}
+	ts, ok := stmts[0].(*ast.TypeSwitchStmt)
+	if !ok {
+		fail("write: expected a type switch")
 	}
 	var rows []string
 	for _, c := range ts.Body.List {
@@ -137,7 +152,8 @@ func genWriteCases() {
 	var sb strings.Builder
 	fmt.Fprintf(&sb, header, "compiler.go (compiler.write)")
 	sb.WriteString("namespace Plush.Gen\n\n/-- the arms of the type switch in `compiler.write`, in order: (types of the arm, action class) -/\n")
-	sb.WriteString("def writeCases : List (List String × String) := [\n" + strings.Join(rows, ",\n") + "\n]\n\nend Plush.Gen\n")
+	sb.WriteString("def writeCases : List (List String × String) := [\n" + strings.Join(rows, ",\n") + "\n]\n\n")
+	fmt.Fprintf(&sb, "/-- `write` starts by returning on a typed nil pointer (nothing is written for it) -/\ndef writeNilPointerGuard : Bool := %v\n\nend Plush.Gen\n", nilGuard)
 	emit("WriteCases", "compiler.go", sha, sb.String())
 }
 
